@@ -19,7 +19,7 @@ RULE = ("Hypothesis generates 2 markets, a TradingHaltRule on one of them (rate 
         "flag; orders submitted during a halt are still accepted. Non-trivial = run containing >=1 halt; distinct by (config, "
         "seed).")
 ASSUMPTIONS = ["one target market per rule (the documented way to halt markets separately)",
-               "while the target is halted the session's execution switch is off, so no market matches (C09 permits: 'unless a trading halt is in force')"]
+               "fills on OTHER markets while the target is halted are neither required nor forbidden by the property and are not judged"]
 
 
 @st.composite
@@ -108,8 +108,10 @@ def check_case(case):
                 elif kw["running"] is False and halted_until is None:
                     raise Violation("C16.unexpected_halt", f"target stopped after a fill at {kw['mp']!r} (p0 {kw['p0']!r}, threshold rate*{k + 1}={rate * (k + 1)})")
             else:
-                if halted_until is not None and not halt_round:
-                    raise Violation("C16.no_fill_while_halted", f"fill on market {l.market_id} while the session's execution is switched off by a halt")
+                # a fill on a market that is not the halted one: the property does not forbid it (pams happens to stop all
+                # matching of the session during a halt, which C09 permits but nothing requires)
+                if kw["running"] is False:
+                    raise Violation("C16.no_fill_on_stopped_market", f"fill at time {l.time} on market {l.market_id}, which reports is_running=False")
     # independent of the model: no fill is ever recorded for a market that was not running at the preceding step-begin
     # observation unless it was (re)started in between -- covered by the schedule above; here the plain invariant on the
     # trace: a fill's market reports is_running in the probe hook of the first fill of each round
